@@ -47,7 +47,7 @@ def run(ctx):
 
 MANIFEST = {
     "text": "Theorems (Coq, no axioms) about executable models of internal/git/changes.go and internal/discovery/git_branch.go as they are now "
-            "(after fixes a826206, 4412e3a, 4dd7734, d9e7954): for ALL logs, with no guard, the change list built by the fold over `git log "
+            "(after fixes a826206, 4412e3a, 4dd7734, d9e7954, e81cbba): for ALL logs, with no guard, the change list built by the fold over `git log "
             "--name-status` entries is exactly the list of lineage chains of a depth-indexed specification (k-th most recent file at a path followed "
             "backwards: origin, commits, status); under the named hypothesis log_faithful every record's Body.Before is the origin's content at the "
             "fork point and Body.After the content at HEAD (a shadowed record is always a deletion), so matchEntries compares the fork version with "
@@ -59,9 +59,8 @@ MANIFEST = {
             "that is untouched relative to the fork-point version of the file it descends from (enough identical base copies, same path, same set of "
             "disabled checks) is Noop in the list `pint ci` lints, and a HEAD rule whose content differs from every rule of that base version is "
             "Added/Modified/Moved there (never Noop; the merge loop cannot lose the state); the FileStatus runes, the status switch of git.Changes, "
-            "the PathType order and the `git log` arguments are regenerated from the Go AST every run. One open known finding, with a machine-checked "
-            "model witness and a candidate patch: with git's copy detection on (diff.renames=copies) a copy entry makes git.Changes drop the source "
-            "file's change record, so rules changed in the source are classified unmodified. "
+            "the PathType order and the `git log` arguments are regenerated from the Go AST every run. No open known finding (the copy-entry defect found in round 4 -- with copy detection configured a copy entry made git.Changes drop the "
+            "source file's record -- was fixed by e81cbba; regression theorems and corpus witness kept). "
             "Tied to the code every run by four differential layers (real matchEntries; real git.Changes on scratch repositories; real "
             "GlobFinder+Find; the composed model classify against the real Find from raw git output) and by `pint ci` with per-state marker blocks "
             "on generated histories (add/modify/delete/rename file, rule edits incl. single map entries and trailing lines, cosmetic edits, reorders, "
